@@ -27,15 +27,10 @@ class CustomOrder:
             raise ValueError("CustomOrder is compared against other class")
         if self.order != other.order:
             return self.order < other.order
-        if self.line != other.line:
-            if self.is_left_precedence:
-                return self.line > other.line
-            else:
-                return self.line < other.line
-        if self.is_left_precedence:
-            return self.col > other.col
-        else:
-            return self.col < other.col
+        # Same precedence: operators are compared in the order they appear, `self` always
+        # being the later one, so associativity alone decides. (Comparing line/col here is
+        # wrong for tokens made by macro expansion, whose positions are synthetic.)
+        return self.is_left_precedence
 
 
 class OpenBracket:
